@@ -7,6 +7,7 @@ import (
 	"fmt"
 	"io"
 	"math/rand"
+	"reflect"
 	"strings"
 	"text/template"
 
@@ -384,6 +385,30 @@ func c01more(c *fw.Ctx, idx int, which string) {
 				return
 			}
 		}
+	case "safewriter-command-whose-argument-renders-through-another-safewriter":
+		// a SafeWriter command with several arguments, one of which renders a piece of template that uses another
+		// SafeWriter (includeIfExists; a function yielding a block): the arguments printed afterwards still go through
+		// the command's own SafeWriter
+		upper := jet.SafeWriter(func(w io.Writer, b []byte) { w.Write([]byte("[" + strings.ToUpper(string(b)) + "]")) })
+		for _, cf := range cfgs {
+			files := map[string]string{"/part.jet": `<i>{{ .C | raw }}</i>`,
+				"/main.jet": `{{ block item() }}({{ . | safeHtml }}){{ end }}|{{ safeHtml: .A, includeIfExists("/part.jet", .), .B }}|{{ upperw: "a<", item("<x>"), "b<" }}|{{ .B }}`}
+			vars := jet.VarMap{}
+			vars.Set("upperw", upper)
+			vars.SetFunc("item", func(a jet.Arguments) reflect.Value {
+				a.Runtime().YieldBlock("item", a.Get(0).Interface())
+				return reflect.ValueOf("")
+			})
+			data := map[string]interface{}{"A": `<a x="1">`, "B": `<b>'q'`, "C": `<c>`}
+			res := jx.Run(files, "/main.jet", vars, data, cf.opts...)
+			c.Eval(1)
+			h := template.HTMLEscapeString
+			want := "(" + h(fmt.Sprint(data)) + ")|" + h(`<a x="1">`) + "<i><c></i>" + h("true") + h(`<b>'q'`) + "|[A<](" + h("<x>") + ")[B<]|" + cf.esc(`<b>'q'`)
+			if res.Failed() || c01merge(res.Out) != want {
+				c.Violation("c01:nested-safewriter:"+cf.name, "", fmt.Sprintf("rendered %s, want %q", res, want))
+				return
+			}
+		}
 	case "execution-nested-inside-exec":
 		// an execution started (by a Go function) while another one is inside exec(): both escape their values as always
 		for _, cf := range cfgs {
@@ -416,7 +441,7 @@ func c01more(c *fw.Ctx, idx int, which string) {
 	c.Distinct("directed|" + which)
 }
 
-var c01moreCases = []string{"dump-is-a-value", "execution-nested-inside-exec"}
+var c01moreCases = []string{"dump-is-a-value", "execution-nested-inside-exec", "safewriter-command-whose-argument-renders-through-another-safewriter"}
 
 func c01runDirected(c *fw.Ctx, idx int) {
 	if idx >= len(c01directed) {
